@@ -494,9 +494,9 @@ impl StackVisitor for StackCollector {
 }
 
 pub fn units(property: &'static str, thorough: bool, seed: u64) -> Vec<Unit> {
-    let mut c = Collector { property, cases: if thorough { 12000 } else { 1500 }, seed, max_pow: if thorough { 16 } else { 14 }, units: Vec::new() };
+    let mut c = Collector { property, cases: if thorough { 20000 } else { 4000 }, seed, max_pow: if thorough { 16 } else { 14 }, units: Vec::new() };
     catalogue::all(&mut c);
-    let mut s = StackCollector { property, cases: if thorough { 8000 } else { 1000 }, seed, units: Vec::new() };
+    let mut s = StackCollector { property, cases: if thorough { 12000 } else { 2500 }, seed, units: Vec::new() };
     catalogue::stacks(&mut s);
     let mut u = c.units;
     u.extend(s.units);
